@@ -39,7 +39,11 @@ Definition mon_eds (sn : eds_snapshot) (obs : eds_obs) : list N :=
             code_if (N.eqb (e_tmpl_hash e) (r_tmpl_hash a) || es_fail_status sn || es_fail_update sn || es_fail_list_rs sn ||
                      negb (Nat.eqb (length (es_fail_rs_delete sn)) 0) || eo_panic obs ||
                      (existsb (fun w => match w with OStatus _ => true | _ => false end) (eo_writes obs) &&
-                      existsb (fun w => match w with OUpdate _ => true | _ => false end) (eo_writes obs))) 12
+                      existsb (fun w => match w with OUpdate _ => true | _ => false end) (eo_writes obs))) 12 ++
+            (* the failed replica set is the only durable record of the failure while spec.template still names its
+               template: the reconcile that rolls back never deletes it, however long ago it failed *)
+            code_if (negb (existsb (fun w => match w with ODeleteRs n => N.eqb n (r_name u) | _ => false end)
+                                   (eo_writes obs))) 15
           else []
       | _, _, _ => []
       end
@@ -47,7 +51,7 @@ Definition mon_eds (sn : eds_snapshot) (obs : eds_obs) : list N :=
 
 Definition chk (c : case) : list N :=
   match c with
-  | CErs sn obs => code_if (step_ok_ers sn obs) 1
+  | CErs sn obs => code_if (step_ok_ers sn obs) 1 ++ mon_failed_sticky sn obs 16
   | CEds sn obs => code_if (step_ok_eds sn obs) 1 ++ mon_eds sn obs
   end.
 Definition run (cs : list case) : list (N * N) := run_cases chk 0%N cs.
